@@ -241,4 +241,107 @@ theorem rollbackTx_unconfirm (c : Ctx) (s s' : Store) (bals bals' : Bals) (blk :
         rw [i2] at this
         exact this
 
+/-- the input loop of Rollback: exactly the memberships of `id` under the outpoints of `ins` are added -/
+theorem rollbackIns_listed (c : Ctx) (id : TxId) (blk : BlockMeta) : ∀ (ins : List Inp) (n : Nat) (sb r : Store × Bals),
+    foldIdxM (rollbackIn c id blk) ins n sb = .ok r →
+    (∀ op x, Listed r.1 op x ↔ Listed sb.1 op x ∨ (x = id ∧ ∃ i ∈ ins, (i.tx, i.idx) = op)) ∧
+    (NoEmpty sb.1 → NoEmpty r.1) := by
+  intro ins
+  induction ins with
+  | nil =>
+    intro n sb r h; simp [foldIdxM, pure, Except.pure] at h; subst h
+    exact ⟨fun op x => by simp, fun h => h⟩
+  | cons i ins ih =>
+    intro n sb r h
+    simp only [foldIdxM, bind, Except.bind] at h
+    cases hf : rollbackIn c id blk sb n i with
+    | error e => rw [hf] at h; cases h
+    | ok b' =>
+      rw [hf] at h
+      obtain ⟨_, _, q3⟩ := rollbackIn_ok c id blk sb b' n i hf
+      obtain ⟨r1, r2⟩ := ih (n + 1) b' r h
+      have hb' : ∀ op x, Listed b'.1 op x ↔ Listed sb.1 op x ∨ (op = (i.tx, i.idx) ∧ x = id) := by
+        intro op x
+        have := putPendIn_listed sb.1 (i.tx, i.idx) id op x
+        unfold Listed at *; rw [q3]; exact this
+      refine ⟨fun op x => ?_, fun hne => r2 ?_⟩
+      · rw [r1, hb']
+        constructor
+        · rintro ((h | ⟨h1, h2⟩) | ⟨h1, j, hj, hop⟩)
+          · exact Or.inl h
+          · exact Or.inr ⟨h2, i, by simp, h1.symm⟩
+          · exact Or.inr ⟨h1, j, by simp [hj], hop⟩
+        · rintro (h | ⟨h1, j, hj, hop⟩)
+          · exact Or.inl (Or.inl h)
+          · rcases List.mem_cons.mp hj with rfl | hj
+            · exact Or.inl (Or.inr ⟨hop.symm, h1⟩)
+            · exact Or.inr ⟨h1, j, hj, hop⟩
+      · intro op
+        have := putPendIn_noEmpty sb.1 (i.tx, i.idx) id hne op
+        rw [q3]; exact this
+
+/-- UNCONFIRM preserves well-formedness: the rolled-back transaction is stored under its own id, was not pending,
+    and respects the rank -/
+theorem rollbackTx_wf (rank : TxId → Nat) (c : Ctx) (s s' : Store) (bals bals' : Bals) (blk : BlockMeta) (id : TxId)
+    (rem : List (TxId × Nat)) (loc : BlkId × Nat) (tx : Tx) (hw : PendWF rank s)
+    (h : rollbackTx c s bals blk id = .ok (s', bals', rem))
+    (hloc : AMap.get s.txrecs (id, blk) = some loc) (htx : c.node.txByFileLoc loc = some tx) (hcb : tx.cb = false)
+    (hid : tx.id = id) (hnew : AMap.get s.pending id = none) (hrank : ∀ i ∈ tx.ins, rank i.tx < rank id) :
+    PendWF rank s' := by
+  unfold rollbackTx at h
+  rw [hloc] at h
+  simp only [htx, hcb] at h
+  simp only [Bool.false_eq_true, if_false, bind, Except.bind] at h
+  cases hin : foldIdxM (rollbackIn c id blk) tx.ins 0
+      ({ s with txrecs := AMap.erase s.txrecs (id, blk), pending := AMap.put s.pending id tx }, bals) with
+  | error e => rw [hin] at h; cases h
+  | ok sb1 =>
+    rw [hin] at h
+    simp only [] at h
+    cases hout : foldIdxM (rollbackOut c id blk) tx.outs 0 sb1 with
+    | error e => rw [hout] at h; cases h
+    | ok sb2 =>
+      rw [hout] at h
+      simp only [pure, Except.pure, Except.ok.injEq, Prod.mk.injEq] at h
+      obtain ⟨e1, _, _⟩ := h
+      subst e1
+      obtain ⟨i1, _, _, _⟩ := rollbackIns_ok c id blk tx.ins 0 _ sb1 hin
+      obtain ⟨l1, l2⟩ := rollbackIns_listed c id blk tx.ins 0 _ sb1 hin
+      obtain ⟨o1, o2, _⟩ := rollbackOuts_ok c id blk tx.outs sb1 sb2 hout
+      have hget : ∀ k, AMap.get sb2.1.pending k = if id = k then some tx else AMap.get s.pending k := by
+        intro k; rw [o1, i1]; show AMap.get (AMap.put s.pending id tx) k = _; rw [AMap.get_put]
+      have hlisted : ∀ op x, Listed sb2.1 op x ↔ Listed s op x ∨ (x = id ∧ Spends tx op) := by
+        intro op x
+        have := l1 op x
+        unfold Listed Spends at *; rw [o2]; exact this
+      refine ⟨?_, ?_, ?_, ?_, ?_⟩
+      · intro k t hg
+        rw [hget] at hg
+        split at hg
+        · rename_i hk; cases hg; rw [hid]; exact hk
+        · exact hw.key_id k t hg
+      · intro op x hl
+        rcases (hlisted op x).mp hl with hl | ⟨hx, hsp⟩
+        · obtain ⟨t, ht, hsp⟩ := hw.sound op x hl
+          refine ⟨t, ?_, hsp⟩
+          rw [hget]
+          split
+          · rename_i hk; rw [← hk, hnew] at ht; cases ht
+          · exact ht
+        · exact ⟨tx, by rw [hget, hx]; simp, hsp⟩
+      · intro k t hg i hi
+        rw [hget] at hg
+        split at hg
+        · rename_i hk; cases hg
+          exact (hlisted _ _).mpr (Or.inr ⟨hk.symm, i, hi, rfl⟩)
+        · exact (hlisted _ _).mpr (Or.inl (hw.complete k t hg i hi))
+      · intro op
+        have := l2 hw.noEmpty op
+        rw [o2]; exact this
+      · intro k t hg i hi
+        rw [hget] at hg
+        split at hg
+        · rename_i hk; cases hg; rw [← hk]; exact hrank i hi
+        · exact hw.rank k t hg i hi
+
 end MW.Lemmas.LedgerPending
